@@ -8,16 +8,20 @@ SPEC = dict(
         text='Coq theorem over the call graph GENERATED from inverter.py / et.py / dt.py / es.py on this run (tools/callgraph.py): from every '
              'method of the monitoring API (read_device_info, read_runtime_data, read_sensor, read_setting, read_settings_data, get_*) of ET, DT '
              'and ES the transitive closure of self-calls constructs or references read commands only; connect/discover only call '
-             'read_device_info / read_runtime_data / execute on read commands; (non-vacuity) the setters do reach write commands.  A monitor '
+             'read_device_info / read_runtime_data / execute on read commands; (non-vacuity) the setters do reach write commands.  On the register-file models of C17 / C19 / C20 (guards and step lists GENERATED from '
+             'set_grid_export_limit, set_ongrid_battery_dod, set_operation_mode of ET / DT): a negative export limit, a depth of discharge outside 0..100 '
+             'and an eco-mode power or SoC outside 0..100 transmit nothing and change no register (C18_*_rejects, C18_eco_mode_arguments_rejected); '
+             'read_setting and get_operation_mode of the two-object model transmit reads only.  A monitor '
              'drives the API of the real classes against the simulated inverter over model configurations and capability fallbacks (also after '
              'legitimate writes of the same registers) and calls every setter with out-of-range arguments: no write is transmitted, ValueError '
              'where documented.',
         note='Static part: syntactic call graph (self-calls, command constructors classified by name and literal AA55 payload prefix; dynamic '
              'dispatch makes the generator abort). What is actually transmitted is decided by the monitor.',
-        technique='Coq reachability proof over a generated call graph + request monitor on the real classes',
+        technique='Coq reachability proof over a generated call graph + Coq proofs on register-file models with generated guards + request monitor on the real classes',
         design_ref='DESIGN.md section 5 (C18)'),
     stages=[SP.inv_stage('read-only-monitor', IM.mon_readonly)],
-    theorems=['C18_monitoring_api_constructs_reads_only', 'C18_entry_points_read_only', 'C18_setters_do_reach_writes'],
+    theorems=['C18_monitoring_api_constructs_reads_only', 'C18_entry_points_read_only', 'C18_setters_do_reach_writes', 'C18_et_export_limit_rejects',
+              'C18_dt_export_limit_rejects', 'C18_et_dod_rejects', 'C18_eco_mode_arguments_rejected', 'C18_model_reads_transmit_no_write'],
     rule='families x model configurations x capability fallbacks x read-only call sequences; invalid arguments around the valid intervals of every setter',
     trusted_base=['tools/callgraph.py (regenerates coq/Gen/CallGen.v on every run; fail-closed on dynamic dispatch / unclassifiable commands)'] + SP.TB_SENS[2:],
     assumptions=[],
